@@ -815,5 +815,5 @@ def run(ctx: Ctx, rep: Report, tier: str) -> None:
 
 
 # what the later rounds (seeding rounds 2-5, refactor twins, defect hunt) added to what the check decides
-LATER_ROUNDS = "collections only grow, nothing is de-duplicated, every line placed by grouping (the dropped repeated heading is known finding K6)"
+LATER_ROUNDS = "collections only grow, nothing is de-duplicated, every line placed by grouping (the dropped repeated heading is known finding K6), blocks are stored in the order their headings stand in the text"
 EXPLANATION = EXPLANATION.replace(" Does not decide", " Later rounds added: " + LATER_ROUNDS + ". Does not decide", 1) if " Does not decide" in EXPLANATION else EXPLANATION + " Later rounds added: " + LATER_ROUNDS + "."
